@@ -71,7 +71,7 @@ partial def scenario (st : Stats) (inh : String) (f0 : Files) (d : Daemon) (spec
         let ms := match model with
           | some o => s!"{hex o.info}:{hex o.loc}:{hex o.rem}"
           | none => "fail"
-        st ← disagree st s!"kind=S in={inh} todo={todoh} impl={infoh}:{loch}:{remh} model={ms}"
+        st ← disagree st s!"kind=S in={inh} todo={todoh} impl={infoh}:{loch}:{remh} model={ms} stdin={inh}"
       match spec with
       | some c =>
         if cfgOk c && todoWellFormed todo then
@@ -79,7 +79,7 @@ partial def scenario (st : Stats) (inh : String) (f0 : Files) (d : Daemon) (spec
           let el := specChan c .loc rs
           let er := specChan c .rem rs
           if el != loc || er != rem then
-            st ← oracleFail st s!"kind=S in={inh} todo={todoh} impl={loch}:{remh} spec={hex el}:{hex er}"
+            st ← oracleFail st s!"kind=S in={inh} todo={todoh} impl={loch}:{remh} spec={hex el}:{hex er} stdin={inh}"
           else if !loc.isEmpty && !rem.isEmpty then st := st.bump "S_msg_both_channels"
         else st := st.bump "S_oracle_skipped_dup"
       | none => pure ()
@@ -118,7 +118,7 @@ def handle (ref : IO.Ref Cur) (st : Stats) (line : String) : IO Stats := do
         let ms := match model with
           | some r => s!"1:{hex r.env}:{hex r.ph}:{hex r.locals}:{hex r.vdoms}"
           | none => "0"
-        st ← disagree st s!"kind=G g={ghex} in={ghex} impl={ok}:{envh}:{phh}:{lch}:{vdh} model={ms}"
+        st ← disagree st s!"kind=G g={ghex} in={ghex} impl={ok}:{envh}:{phh}:{lch}:{vdh} model={ms} stdin=G,{ghex}"
       let spec := if nulFree f then specCfg f else none
       -- oracle: the buffers the implementation built contain exactly the documented entries
       if nulFree f then
@@ -126,7 +126,7 @@ def handle (ref : IO.Ref Cur) (st : Stats) (line : String) : IO Stats := do
           | some c => ok == "1" && bufCfgEq implRaw c
           | none => ok == "0"
         if !good then
-          st ← oracleFail st s!"kind=G g={ghex} in={ghex} impl={ok}:{envh}:{phh}:{lch}:{vdh}"
+          st ← oracleFail st s!"kind=G g={ghex} in={ghex} impl={ok}:{envh}:{phh}:{lch}:{vdh} stdin=G,{ghex}"
       let nodup := match spec with | some c => cfgOk c | none => false
       if !nodup && spec.isSome then st := st.bump "G_dup_keys"
       ref.set { ghex := ghex, raw := model, L := match model with | some r => r.htLookups | none => ({} : Cur).L,
@@ -143,7 +143,7 @@ def handle (ref : IO.Ref Cur) (st : Stats) (line : String) : IO Stats := do
         let m := rewriteWith cur.L raw.env recip
         let mut st := st
         if retOf m != ret || m.line != il then
-          st ← disagree st s!"kind=R g={cur.ghex} in={rh} impl={ret}:{lineh} model={retOf m}:{hex m.line}"
+          st ← disagree st s!"kind=R g={cur.ghex} in={rh} impl={ret}:{lineh} model={retOf m}:{hex m.line} stdin=G,{cur.ghex};R,{rh}"
         let ma := rewrite raw.cfg recip
         if ma != m then
           st ← disagree st s!"kind=R g={cur.ghex} in={rh} hash-table model and finite-map model differ"
@@ -159,7 +159,7 @@ def handle (ref : IO.Ref Cur) (st : Stats) (line : String) : IO Stats := do
           if cur.nodup then
             let s := routeSpec c recip
             if retOf s != ret || s.line != il then
-              st ← oracleFail st s!"kind=R g={cur.ghex} in={rh} impl={ret}:{lineh} spec={retOf s}:{hex s.line}"
+              st ← oracleFail st s!"kind=R g={cur.ghex} in={rh} impl={ret}:{lineh} spec={retOf s}:{hex s.line} stdin=G,{cur.ghex};R,{rh}"
             -- statistics: how often the two readings of "repeatedly" differ (fqdn containing '@')
             let a0 := if recip.contains AT then recip else recip ++ AT :: c.env
             if pctString c.ph (a0.length + 1) a0 != s.addr then st := st.bump "R_pct_readings_differ"
@@ -177,13 +177,13 @@ def handle (ref : IO.Ref Cur) (st : Stats) (line : String) : IO Stats := do
       let m := commWrite delnum.toUInt8 fnm sender recip
       let mut st := st.bump "V"
       if m != buf then
-        st ← disagree st s!"kind=V in={sh} recip={rh} delnum={dn} id={ids} impl={bufh} model={hex m}"
+        st ← disagree st s!"kind=V in={sh} recip={rh} delnum={dn} id={ids} impl={bufh} model={hex m} stdin=V,{sh},{rh},{dn},{ids}"
       let want := verpSpec sender recip
       let good := match buf with
         | _ :: rest => chunks rest == [fnm, want, recip]
         | [] => false
       if !good then
-        st ← oracleFail st s!"kind=V in={sh} recip={rh} delnum={dn} id={ids} impl={bufh} spec_sender={hex want}"
+        st ← oracleFail st s!"kind=V in={sh} recip={rh} delnum={dn} id={ids} impl={bufh} spec_sender={hex want} stdin=V,{sh},{rh},{dn},{ids}"
       if want != sender then
         st := st.bump "V_verp_expanded"
         let key := hashBytes (sender ++ 0 :: recip)
@@ -201,13 +201,13 @@ def handle (ref : IO.Ref Cur) (st : Stats) (line : String) : IO Stats := do
         | none => found == "0"
       if !agree then
         let ms := match m with | some x => "1:" ++ hex x | none => "0"
-        st ← disagree st s!"kind=K in={kh} buf={bh} fc={fcs} impl={found}:{vh} model={ms}"
+        st ← disagree st s!"kind=K in={kh} buf={bh} fc={fcs} impl={found}:{vh} model={ms} stdin=K,{bh},{fcs},{kh}"
       let es := parseEntries buf fc
       if noDupKeys es then
         let good := match entryFor es key with
           | some x => found == "1" && (!fc || x == v)
           | none => found == "0"
-        if !good then st ← oracleFail st s!"kind=K in={kh} buf={bh} fc={fcs} impl={found}:{vh}"
+        if !good then st ← oracleFail st s!"kind=K in={kh} buf={bh} fc={fcs} impl={found}:{vh} stdin=K,{bh},{fcs},{kh}"
         if found == "1" then st := st.bump "K_found"
       else st := st.bump "K_oracle_skipped_dup"
       return st
@@ -215,7 +215,7 @@ def handle (ref : IO.Ref Cur) (st : Stats) (line : String) : IO Stats := do
   | ["X", kh, hs] =>
     match unhex kh, hs.toNat? with
     | some key, some h =>
-      if (cmHash key).toNat != h then disagree st s!"kind=X in={kh} impl={hs} model={(cmHash key).toNat}"
+      if (cmHash key).toNat != h then disagree st s!"kind=X in={kh} impl={hs} model={(cmHash key).toNat} stdin=X,{kh}"
       else return st.bump "X"
     | _, _ => disagree st s!"unparsable line {line}"
   | ["B", cs, sh, rs, cd] =>
@@ -223,11 +223,11 @@ def handle (ref : IO.Ref Cur) (st : Stats) (line : String) : IO Stats := do
     | some c, some s, some r =>
       let mut st := st.bump "B"
       if rchr c.toUInt8 s != r then
-        st ← disagree st s!"kind=B in={sh} c={cs} impl={rs} model={rchr c.toUInt8 s}"
+        st ← disagree st s!"kind=B in={sh} c={cs} impl={rs} model={rchr c.toUInt8 s} stdin=B,{cs},{sh}"
       let good := match splitLast c.toUInt8 s with
         | some p => r == p.1.length
         | none => r == s.length
-      if !good || cd != "1" then st ← oracleFail st s!"kind=B in={sh} c={cs} impl={rs} casefold_equal={cd}"
+      if !good || cd != "1" then st ← oracleFail st s!"kind=B in={sh} c={cs} impl={rs} casefold_equal={cd} stdin=B,{cs},{sh}"
       return st
     | _, _, _ => disagree st s!"unparsable line {line}"
   | "S" :: a :: b :: c :: d :: e :: started :: _n :: steps =>
